@@ -79,8 +79,5 @@ Theorem C04_partial :
     run clen 0%N owner tgid0 sched = Ok tr -> wf_sched clen owner tgid0 sched = true ->
     (k <= length tr)%nat -> guard_crash tr k = true ->
     snd (recover clen 1%N owner2 (pl_img tr k (fun _ => false))) = StartOk.
-Proof.
-  intros clen Hpos owner2 owner tgid0 sched tr k Hown Htg Hrun Hwf Hk Hg.
-  rewrite pl_img_process_crash. eapply restart_and_queries_ok; eassumption.
-Qed.
+Proof. exact nothing_lost_recovers. Qed.
 Print Assumptions C04_partial.
